@@ -26,8 +26,9 @@ EXPLANATION = ("(i) ORDER CONDITIONS. The library's own integrator classes take 
 BOUNDS = ("integrators ExplicitEuler(p=1), RungeKutta2(2), RungeKutta3(3), RungeKuttaMerson(4), RungeKuttaFeldberg(documented 5), Verlet(2), "
           "SemiExplicitEuler(1), SemiExplicitEuler2(1); one internal step; ODE families listed in the explanation (1-2 state variables); free: h, lam, "
           "initial values, quadrature coefficients, constant force (all reals), other ODE coefficients pinned at 2 (quick) / 4 (thorough) exact base points; "
-          "Verlet and the coupled quadratic system: only h free; adjustStepSize: 1 call per run, scenario seeds x path flips (budget 6 quick / 24 thorough "
-          "per scenario), error orders 2,3,4")
+          "Verlet: only h free; coupled quadratic system: h plus initial values/coefficients for the 1-3 stage methods, h only for RKM/RKF; path-condition "
+          "literals larger than 12 terms (error-norm comparisons, irrelevant under a fixed step) are left out of the hypotheses; adjustStepSize: 1 call per run, scenario seeds x path flips (budget 2 quick / 12 thorough "
+          "paths per scenario), error orders 2,3,4")
 NOT_COVERED = ("global error <= K*accuracy over an interval and its monotonicity in the accuracy (an error bound over many steps, not an identity); CPodes "
                "(BDF/Adams, external-style C code with its own controller); order conditions are proved on the listed ODE families, not for arbitrary "
                "vector fields (the coupled quadratic system separates the elementary differentials only up to the orders listed); RungeKuttaFeldberg error "
@@ -56,12 +57,12 @@ def instances(tier, seed):
             systems.append("nl")
         for sk in systems:
             out.append(dict(name="order/%s/%s" % (ig, sk), args=["order", ig, sk], paths=1, base_points=(2 if not thorough else 4),
-                            max_terms=60000, z3_timeout_ms=60000, pc_max_terms=12))
+                            max_terms=60000, pc_max_terms=12))
         d = min(p, 3)
         isys = ["quad%d" % d] + (["mbsF"] if p >= 2 else [])
         for sk in isys:
             out.append(dict(name="interp/%s/%s" % (ig, sk), args=["interp", ig, sk], paths=1, base_points=(1 if not thorough else 3),
-                            max_terms=20000, z3_timeout_ms=60000, pc_max_terms=12))
+                            max_terms=20000, pc_max_terms=12))
     # (iii) step-size controller: the real adjustStepSize on symbolic data, one scenario (= seed region) per instance
     acc, hc = 0.0625, 0.125
     cases = {"zero": 0.0, "tiny": acc / 10000, "grow": acc / 16, "hyst": acc / 2, "keep": acc / 1.25, "edge": acc, "bad": 2 * acc, "worse": 1.125 * acc, "awful": 1e6 * acc}
@@ -72,18 +73,18 @@ def instances(tier, seed):
                 continue
             sd = dict(err=ev, acc=acc, hcur=hc, hmin=hc * (1.0 if cn in ("bad", "awful") and "lim" not in fl else 0.75), hmax=hc * (1.5 if cn != "keep" else 1.0))
             out.append(dict(name="adjust/%s/%s" % (fl or "plain", cn), args=["adjust", "RungeKuttaMerson", fl], paths=(2 if not thorough else 12), base_points=1,
-                            flips_per_path=(2 if not thorough else 8), seedcase=sd, z3_timeout_ms=60000))
+                            flips_per_path=(2 if not thorough else 8), seedcase=sd))
         for sp in ("inf", "nan"):
             if not thorough and fl not in ("", "min+max"):
                 continue
             out.append(dict(name="adjust/%s/%s" % (fl or "plain", sp), args=["adjust", "RungeKuttaMerson", (fl + "+" + sp).strip("+")], paths=1, base_points=1,
-                            seedcase=dict(acc=acc, hcur=hc, hmin=hc * 0.75, hmax=hc * 1.5), z3_timeout_ms=60000))
+                            seedcase=dict(acc=acc, hcur=hc, hmin=hc * 0.75, hmax=hc * 1.5)))
     # the controller as wired into the real stepTo (error control active), every adjustStepSize call recorded
     for ig in ("RungeKuttaMerson", "RungeKutta3", "ExplicitEuler", "RungeKutta2"):
         for cn, sd in (("small", dict(h=0.125, lam=-0.75)), ("large", dict(h=2.0, lam=-2.0))):
             if not thorough and cn == "large" and ig in ("RungeKutta2",):
                 continue
-            out.append(dict(name="ctrl/%s/lin/%s" % (ig, cn), args=["ctrl", ig, "lin"], paths=1, base_points=1, seedcase=sd, max_terms=20000, z3_timeout_ms=60000,
+            out.append(dict(name="ctrl/%s/lin/%s" % (ig, cn), args=["ctrl", ig, "lin"], paths=1, base_points=1, seedcase=sd, max_terms=20000,
                             pc_max_terms=60))
     return out
 
